@@ -11,7 +11,7 @@
 import os, sys, json, subprocess
 from concurrent.futures import ThreadPoolExecutor
 import vcommon as V
-import resume as R
+import c03_resume as R
 
 JOBS = max(1, min(4, V.NPROC))
 
